@@ -65,6 +65,7 @@ type BoundContract struct {
 	Terminates  bool
 	Recovers    bool
 	MayPanic    bool
+	Partial     bool // a violated precondition makes the function panic (runtime check), it is not undefined behaviour
 	Trusted     bool
 	Variant     string
 	FreshResult map[int]bool
